@@ -931,6 +931,8 @@ fn run(c: &Case) -> Obs {
         "midx" => c19_multi::run_midx(c),
         "mqry" => c19_multi::run_mqry(c),
         "unm" => c19_multi::run_unm(c),
+        "via" => c19_multi::run_via(c),
+        "hdr" => c19_multi::run_hdr(c),
         _ => Obs::ok("-", false),
     }
 }
